@@ -48,6 +48,8 @@ func (*int64Scalar) CoerceIn(v interface{}) (interface{}, error) {
 		var i int64
 		if i, err = strconv.ParseInt(tv, 10, 64); err == nil {
 			v = i
+		} else {
+			v = nil
 		}
 	default:
 		err = newCoerceErr(v, "Int64")
@@ -90,6 +92,8 @@ func (t *int64Scalar) CoerceOut(v interface{}) (interface{}, error) {
 		var i int64
 		if i, err = strconv.ParseInt(tv, 10, 64); err == nil {
 			v = i
+		} else {
+			v = nil
 		}
 	default:
 		err = newCoerceErr(tv, "Int64")
